@@ -33,7 +33,7 @@ func (s c01Sub) String() string {
 var c01Clients = []string{"s1", "s2", "p"}
 var c01Filters = []string{"a", "a/b", "a/+", "a/#", "+", "#"}
 
-func c01Candidates(reduced bool) []c01Sub {
+func c01Candidates(reduced bool, fewFlags ...bool) []c01Sub {
 	var out []c01Sub
 	filters := c01Filters
 	qoss := []byte{0, 1, 2}
@@ -46,6 +46,9 @@ func c01Candidates(reduced bool) []c01Sub {
 		id      uint32
 	}
 	flags := []fl{{false, false, 0}, {true, false, 0}, {false, true, 0}, {false, false, 1}, {false, false, 2}, {true, true, 1}}
+	if len(fewFlags) > 0 && fewFlags[0] {
+		flags = []fl{{false, false, 0}, {false, false, 2}, {true, true, 1}}
+	}
 	for cl := 0; cl < 3; cl++ {
 		for _, f := range filters {
 			for _, q := range qoss {
@@ -489,7 +492,7 @@ func runC01(c *explore.Ctx) {
 	c.Trusted = []string{"vsched default schedule (0 deviations)", "refmqtt codec and matcher"}
 	c.Assumptions = []string{"onlyonce mode with matching subscriptions that disagree on Retain-As-Published: either RETAIN value is accepted (statement silent)", "queue 1000, no packet size limit, default 2h message expiry: no documented drop condition is active"}
 	cands := c01Candidates(false)
-	second := c01Candidates(true)
+	second := c01Candidates(true, c.Quick())
 	pubs := c01Pubs()
 	c.Extra["candidate_subscriptions"] = len(cands)
 	c.Extra["publishes_per_table"] = len(pubs)
